@@ -262,7 +262,11 @@ impl Ck<'_, '_> {
                       else { format!("type-name-{fam}") };
             self.fail(&key, format!("{path}: type shown as `{}` (paths stripped: `{shown}`), the Rust type is `{want}`", value_tyname(v)));
         }
-        macro_rules! wrong_kind { () => {{ self.fail(&format!("{fam}-shown-as-{}", kind_of(v)), format!("{path}: a {fam} is shown as {}", kind_of(v))); return; }} }
+        macro_rules! wrong_kind { () => {{
+            let empty_btree = matches!((ty, t), (Ty::BMap(..), T::Map(m)) if m.is_empty()) || matches!((ty, t), (Ty::BSet(..), T::Set(m)) if m.is_empty());
+            if empty_btree && kind_of(v) == "specialization-failed" { self.fail("btree-empty-never-filled-shown-as-raw-structure", format!("{path}: an empty {fam} (root = None) is not interpreted: the raw structure is shown")); }
+            else { self.fail(&format!("{fam}-shown-as-{}", kind_of(v)), format!("{path}: a {fam} is shown as {}", kind_of(v))); }
+            return; }} }
         match (ty, t) {
             (Ty::Int(name), T::Num(text)) => {
                 let Value::Scalar(s) = v else { wrong_kind!() };
@@ -301,7 +305,13 @@ impl Ck<'_, '_> {
                 if c.value.as_deref() != Some(name) { self.fail("cenum-variant", format!("{path}: shown {:?}, the program holds {name}", c.value)); } }
             (Ty::Enum(_) | Ty::Opt(_), T::Variant(name, ts)) => {
                 let Value::RustEnum(e) = v else { wrong_kind!() };
-                let Some(m) = &e.value else { self.fail(&format!("{fam}-no-variant"), format!("{path}: no variant shown, the program holds {name}")); return };
+                let Some(m) = &e.value else {
+                    // the tag of Option<u128>/Option<i128> (and of enums whose largest payload is 128-bit aligned) is a 128-bit integer
+                    let wide = match ty { Ty::Opt(inner) => matches!(**inner, Ty::Int("u128") | Ty::Int("i128")), _ => false };
+                    let topbit = match ty { Ty::Enum(i) => self.defs.enums[*i].variants.iter().any(|x| x.0 == *name && matches!(x.2, Some(d) if d >= 128)), _ => false };
+                    let key = if wide { "enum-with-128-bit-discriminant-shows-no-variant".to_string() }
+                              else if topbit { "enum-unsigned-discriminant-with-top-bit-set-shows-no-variant".to_string() } else { format!("{fam}-no-variant") };
+                    self.fail(&key, format!("{path}: no variant shown, the program holds {name}")); return };
                 if m.field_name.as_deref() != Some(name) { self.fail(&format!("{fam}-variant"), format!("{path}: shown variant {:?}, the program holds {name}", m.field_name)); return; }
                 let Value::Struct(s) = &m.value else { self.fail(&format!("{fam}-payload-kind"), format!("{path}: payload shown as {}", kind_of(&m.value))); return };
                 let tys: Vec<(String, Ty)> = match ty {
@@ -389,9 +399,11 @@ fn toolchain_minor(tc: &str) -> u32 {
     s.split_whitespace().nth(1).and_then(|v| v.split('.').nth(1)).and_then(|m| m.parse().ok()).unwrap_or(0)
 }
 
-struct Session { tc: String, profile: String, seed: u64, minor: u32, prog: Program, bin: PathBuf, compile_error: Option<String> }
+struct Session { tc: String, profile: String, seed: u64, minor: u32, prog: Program, bin: PathBuf, compile_error: Option<String>,
+                 /// location-list ranges [begin, end) of the variables that have a location LIST (llvm-dwarfdump, independent of the debugger)
+                 loclists: HashMap<String, Vec<(u64, u64)>> }
 
-fn prepare(tc: &str, profile: &str, seed: u64, minors: &mut HashMap<String, u32>) -> Session {
+fn prepare(tc: &str, profile: &str, seed: u64, minors: &mut HashMap<String, u32>) -> (Session, Option<std::process::Child>) {
     let krate = format!("c06g_{profile}_{seed}");
     let prog = cgen::generate(profile, seed, &krate);
     let dir = verif_root().join("progs").join("c06gen");
@@ -400,17 +412,39 @@ fn prepare(tc: &str, profile: &str, seed: u64, minors: &mut HashMap<String, u32>
     let src = dir.join(format!("{krate}.rs"));
     let bin = dir.join(format!("{krate}-{tc}-{h:016x}"));
     let minor = *minors.entry(tc.to_string()).or_insert_with(|| toolchain_minor(tc));
-    let mut compile_error = None;
+    let mut child = None;
     if !bin.exists() {
         std::fs::write(&src, &prog.source).unwrap();
-        let out = std::process::Command::new("rustup").args(["run", tc, "rustc", "-g", "-C", "opt-level=0", "--crate-name", &krate, "-o"]).arg(&bin).arg(&src).output().expect("rustc");
-        if !out.status.success() { compile_error = Some(String::from_utf8_lossy(&out.stderr).chars().take(2000).collect()); }
+        child = Some(std::process::Command::new("rustup").args(["run", tc, "rustc", "-g", "-C", "opt-level=0", "--crate-name", &krate, "-o"]).arg(&bin).arg(&src)
+            .stdout(std::process::Stdio::null()).stderr(std::process::Stdio::piped()).spawn().expect("rustc"));
     }
-    Session { tc: tc.to_string(), profile: profile.to_string(), seed, minor, prog, bin, compile_error }
+    (Session { tc: tc.to_string(), profile: profile.to_string(), seed, minor, prog, bin, compile_error: None, loclists: HashMap::new() }, child)
+}
+
+/// `[begin, end)` ranges of the location lists of the named variables / parameters, by llvm-dwarfdump
+fn loclists(bin: &Path, names: &[String]) -> HashMap<String, Vec<(u64, u64)>> {
+    let mut m = HashMap::new();
+    let mut cmd = std::process::Command::new("llvm-dwarfdump-14");
+    for n in names { cmd.arg(format!("--name={n}")); }
+    let Ok(out) = cmd.arg(bin).output() else { return m };
+    let text = String::from_utf8_lossy(&out.stdout).to_string();
+    // DIE blocks are separated by blank lines; ranges precede DW_AT_name inside a block
+    for block in text.split("\n\n") {
+        let Some(name) = block.lines().find_map(|l| l.trim().strip_prefix("DW_AT_name").map(|r| r.trim().trim_start_matches("(\"").trim_end_matches("\")").to_string())) else { continue };
+        let mut ranges = vec![];
+        for l in block.lines() {
+            let l = l.trim();
+            if let Some(r) = l.strip_prefix("[0x") && let Some((a, rest)) = r.split_once(", 0x") && let Some((b, _)) = rest.split_once(')') {
+                if let (Ok(a), Ok(b)) = (u64::from_str_radix(a, 16), u64::from_str_radix(b, 16)) { ranges.push((a, b)); }
+            }
+        }
+        if !ranges.is_empty() { m.insert(name, ranges); }
+    }
+    m
 }
 
 // ------------------------------------------------------------------------------------------------ one live session (worker process)
-struct Worker<'a> { emit: &'a mut dyn FnMut(String), tt: TypeTable, shipped: BTreeSet<u64>, pid: i32, touched: BTreeSet<u64> }
+struct Worker<'a> { emit: &'a mut dyn FnMut(String), tt: TypeTable, shipped: BTreeSet<u64>, pid: i32, touched: BTreeSet<u64>, pc: u64, loclists: &'a HashMap<String, Vec<(u64, u64)>> }
 
 impl Worker<'_> {
     fn k(&mut self, req: String, ans: String) { (self.emit)(format!("K {req}\t{ans}")); }
@@ -448,6 +482,18 @@ impl Worker<'_> {
         self.stat(&format!("family:{}", var.family));
         if var.shape != "-" { self.stat(&format!("shape:{}:{}", var.family, var.shape)); }
         for l in type_lines(qr, &mut self.tt) { self.k(l, "ok".into()); }
+        // K: the keys under which the type parser filed the variants of a repr(u8) enum with explicit discriminants
+        if let Ty::Enum(i) = &var.ty {
+            let def = &defs.enums[*i];
+            if let Some(TypeDeclaration::RustEnum { enumerators, .. }) = qr.type_graph().types.get(&qr.type_graph().root()) {
+                for (vname, _, d) in &def.variants {
+                    if let Some(d) = d {
+                        let key = enumerators.iter().find(|(_, m)| m.name.as_deref() == Some(vname)).map(|(k, _)| k.map(int_tok).unwrap_or("d".into())).unwrap_or("-".into());
+                        self.k(format!("C06 discrkey 1 {d}"), key);
+                    }
+                }
+            }
+        }
         let v = qr.value();
         // K: the root value
         let root = qr.type_graph().root();
@@ -473,7 +519,17 @@ impl Worker<'_> {
             Some(val)
         });
         (self.emit)(format!("!evals {evals}"));
-        for (key, msg) in fails.into_iter().take(3) { self.oracle(&key, &format!("{what} {msg}"), &var.name); }
+        // the variable has a location LIST and the stop pc is the (exclusive) end of one of its ranges while no range covers it:
+        // DWARF says "no location here"; whatever is shown comes from the stale entry
+        let at_range_end = self.loclists.get(&var.name).map(|rs| !rs.iter().any(|(a, b)| *a <= self.pc && self.pc < *b) && rs.iter().any(|(_, b)| *b == self.pc)).unwrap_or(false);
+        if at_range_end { self.stat("stop-at-exclusive-end-of-location-range"); }
+        if let (Some(h), false) = (var.hint, fails.is_empty()) {
+            self.oracle(h, &format!("{what} {}", fails[0].1), &var.name);
+        } else if at_range_end && !fails.is_empty() {
+            self.oracle("location-list-range-end-treated-as-inclusive", &format!("{what} {}: the stop pc {:#x} is the exclusive end of a location-list range of the variable and no range covers it, yet a value is shown (from the stale entry): {}", var.name, self.pc, fails[0].1), &var.name);
+        } else {
+            for (key, msg) in fails.into_iter().take(3) { self.oracle(&key, &format!("{what} {msg}"), &var.name); }
+        }
         for (kind, tid, nums, val) in derefs {
             let tid = self.tt.id(tid);
             self.ship_memory();
@@ -501,7 +557,8 @@ fn session(s: &Session, emit: &mut dyn FnMut(String)) {
     ipose::enable();
     let _ = ipose::take();
     let pid = dbg.process().pid().as_raw();
-    let mut w = Worker { emit, tt: TypeTable { ids: HashMap::new(), emitted: BTreeSet::new() }, shipped: BTreeSet::new(), pid, touched: BTreeSet::new() };
+    let pc0 = u64::from(dbg.ecx().location().global_pc);
+    let mut w = Worker { emit, tt: TypeTable { ids: HashMap::new(), emitted: BTreeSet::new() }, shipped: BTreeSet::new(), pid, touched: BTreeSet::new(), pc: pc0, loclists: &s.loclists };
     {
         let locals = match dbg.read_local_variables() { Ok(v) => v, Err(e) => { w.oracle("read-local-variables-fails", &e.to_string(), ""); vec![] } };
         for var in &s.prog.locals {
@@ -521,6 +578,7 @@ fn session(s: &Session, emit: &mut dyn FnMut(String)) {
         let reason = dbg.continue_debugee_with_reason();
         if !matches!(reason, Ok(StopReason::Breakpoint(..))) { w.oracle("harness-breakpoint-not-hit", "the arguments breakpoint was not hit", ""); return; }
         let _ = ipose::take();
+        w.pc = u64::from(dbg.ecx().location().global_pc);
         w.touched.clear(); w.shipped.clear();
         w.k("C06 memreset".into(), "ok".into());
         let args = match dbg.read_argument(Dqe::Variable(Selector::Any)) { Ok(v) => v, Err(e) => { w.oracle("read-arguments-fails", &e.to_string(), ""); vec![] } };
@@ -552,10 +610,27 @@ pub fn gen_requests(rng: &mut Rng, n: u64, out: &mut Out) -> Vec<String> {
 
 pub fn exec(req: &[String], out: &mut Out, tmpdir: &Path) {
     let mut minors = HashMap::new();
-    let mut sessions = vec![];
+    let mut sessions: Vec<Session> = vec![];
+    let mut compiling: Vec<(usize, std::process::Child)> = vec![];
+    let finish = |sessions: &mut Vec<Session>, (i, ch): (usize, std::process::Child)| {
+        let out = ch.wait_with_output().expect("rustc");
+        if !out.status.success() { sessions[i].compile_error = Some(String::from_utf8_lossy(&out.stderr).chars().take(2000).collect()); let _ = std::fs::remove_file(&sessions[i].bin); }
+    };
     for l in req {
         let t: Vec<&str> = l.split(' ').collect();
-        if t.len() >= 5 && t[0] == "C06" && t[1] == "new" { sessions.push(prepare(t[2], t[3], t[4].parse().unwrap_or(0), &mut minors)); }
+        if t.len() >= 5 && t[0] == "C06" && t[1] == "new" {
+            let (s, child) = prepare(t[2], t[3], t[4].parse().unwrap_or(0), &mut minors);
+            sessions.push(s);
+            if let Some(ch) = child { compiling.push((sessions.len() - 1, ch)); }
+            if compiling.len() >= 4 { let c = compiling.remove(0); finish(&mut sessions, c); }
+        }
+    }
+    for c in compiling { finish(&mut sessions, c); }
+    for s in sessions.iter_mut() {
+        if s.compile_error.is_none() {
+            let names: Vec<String> = s.prog.locals.iter().chain(&s.prog.args).map(|v| v.name.clone()).collect();
+            s.loclists = loclists(&s.bin, &names);
+        }
     }
     let par = std::env::var("VERIF_PAR").ok().and_then(|v| v.parse().ok()).unwrap_or(4usize).min(4);
     let results = run_sessions(&sessions, tmpdir, "c06", par, session_timeout().max(40), |s, emit| session(s, emit));
